@@ -10,6 +10,7 @@
 #include <map>
 #include <deque>
 #include <algorithm>
+#include <iterator>
 // ConstantDataField has no accessor for its value/verify flag and no VerifAccess hook yet
 #define private public
 #include "lib/ebus/data.h"
@@ -157,10 +158,11 @@ int main(int argc, char** argv) {
       string l = "{\"k\":\"split\",\"fields\":" + passthrough(c["fields"]) + ",\"lines\":" + passthrough(c["lines"]) + ",\"outs\":[";
       for (size_t j = 0; j < c["lines"].size(); j++) {
         string line = c["lines"][j].bytes();
-        std::istringstream is(line + "\n");
+        std::istringstream is(line + "\nZ\n");        // a sentinel line follows: it must be left unread
         vector<string> row; unsigned int lineNo = 4;   // not the first line of a file
         bool ok = FileReader::splitFields(&is, &row, &lineNo);
-        bool rest = is.peek() != EOF;                   // something of the stream left unread?
+        string remaining((std::istreambuf_iterator<char>(is)), std::istreambuf_iterator<char>());
+        bool rest = remaining != "Z\n";               // consumed more (or less) than the one line?
         if (j) l += ",";
         l += "{\"ok\":" + string(ok ? "1" : "0") + ",\"ln\":" + std::to_string(lineNo) + ",\"rest\":" + (rest ? "1" : "0") + ",\"row\":[";
         for (size_t i = 0; i < row.size(); i++) { if (i) l += ","; l += jtext(row[i]); }
